@@ -33,6 +33,9 @@ type Obligation struct {
 	Reason  string
 	ScriptBytes int
 	FailedGoal *Term
+	Pair       *Obligation // cover pairs: this cover only counts when Pair is satisfiable
+	Soft       bool        // a cover that is only the reference of a pair
+	Confirm    string      // thorough tier: confirmed | unconfirmed | CONTRADICTED ...
 }
 
 type Exec struct {
@@ -42,6 +45,7 @@ type Exec struct {
 	rct  *Contract
 
 	obls     []*Obligation
+	callCovers map[string]bool
 	notes    map[string]bool
 	discover bool
 	wlogs    []*writeLog
